@@ -4,12 +4,15 @@ import (
 	"github.com/jmattheis/goverter/config"
 	"github.com/jmattheis/goverter/method"
 	"github.com/jmattheis/goverter/namer"
+	"github.com/jmattheis/goverter/veriftrace"
 )
 
 func setupGenerator(converter *config.Converter, n *namer.Namer) (*generator, error) {
+	veriftrace.Emit("gen.start", "converter", converter.Name, "format", string(converter.OutputFormat), "file", converter.OutputFile)
 	extend := method.NewIndex[method.Definition]()
 	for _, def := range converter.Extend {
 		extend.RegisterOverrideOverlapping(def, def)
+		veriftrace.Emit("gen.ext", "name", def.Name, "src", def.Signature.Source, "tgt", def.Signature.Target, "retErr", def.ReturnError, "ctx", def.Context)
 	}
 
 	var err error
@@ -26,8 +29,10 @@ func setupGenerator(converter *config.Converter, n *namer.Namer) (*generator, er
 			gen.IndexID, err = lookup.Register(gen, gen.Definition)
 		}
 		if err != nil {
+			veriftrace.Emit("gen.fail", "err", err)
 			return nil, err
 		}
+		veriftrace.Emit("gen.reg", "m", gen.Name, "src", gen.Signature.Source, "tgt", gen.Signature.Target, "update", gen.UpdateTarget, "retErr", gen.ReturnError, "ctx", gen.Context)
 	}
 
 	gen := generator{
